@@ -16,7 +16,8 @@ CONSTANTS
   SilentByz,    \* Byzantine validators that stay silent (their windows must be skipped)
   StableFrom,   \* virtual ms from which all delays are within the bound (GST + backlog)
   EndT,         \* virtual ms at which the run ended
-  Margin        \* ms a window needs to complete (timeouts + block time)
+  Margin,       \* ms a window needs to complete (timeouts + block time)
+  RequireFast   \* TRUE: demand fast-finalization certificates when >= 80% of the stake is responsive
 
 VARIABLES now, tfirst, ffheld
 
@@ -50,7 +51,7 @@ HighestAt(n) == IF \E x \in fin : x.node = n
                        \A y \in fin : y.node = n => y.s <= m
                 ELSE 0
 
-FastPathExpected == Strong(SumStake(Live))
+FastPathExpected == RequireFast /\ Strong(SumStake(Live))
 
 Goal ==
   /\ \A w \in JudgedWindows :
